@@ -1531,7 +1531,7 @@ def c13(ck):
     # contract |= property, all behaviours within the bound (with per-action coverage: an action never taken
     # would mean the invariants were never exercised on it)
     ck.model("PolyseedMC.tla", "PolyseedMC_quick.cfg" if quick else "PolyseedMC_thorough.cfg", heap="16g", timeout=3400,
-             extra=("-coverage", "1"))
+             extra=() if quick else ("-coverage", "1"))
     cov = ck.models[-1].get("coverage", {})
     for act in ("MCBegin", "MCDep", "MCReturn"):
         if cov and cov.get(act, [0, 0])[0] == 0:
